@@ -1206,20 +1206,49 @@ pub fn uringfault_main(args: &[String]) -> i32 {
     for i in 0..nvals {
         store.insert(format!("big{i}").as_bytes(), &vec![b'a' + i as u8; vlen]).unwrap();
     }
+    crate::freelog::N.store(0, Ordering::SeqCst);
+    crate::freelog::ON.store(true, Ordering::SeqCst);
     let res = store.flush();
+    crate::freelog::ON.store(false, Ordering::SeqCst);
     feoxdb::verif::set_fault_fn(None);
     obs::uninstall();
     let raw = obs::take();
     let mut out = std::io::BufWriter::new(std::fs::File::create(o.req("out")).expect("out"));
     let mut n = 0;
+    // address of every queued buffer (the `ubp` event precedes its `ubq`) and the position of the
+    // deallocation log at that moment: only later deallocations can concern this buffer
+    let mut queued: Vec<(u64, u64, usize, usize, usize)> = Vec::new(); // inst, i, ptr, len, log position
+    let mut last_ptr: Option<(usize, usize, usize)> = None;
     for e in &raw {
+        if e.kind == "ubp" {
+            let pos = e.data.get(..8).map(|b| u64::from_le_bytes(b.try_into().unwrap()) as usize).unwrap_or(0);
+            last_ptr = Some((e.a as usize, e.b as usize, pos));
+            continue;
+        }
         let kind = match e.kind { "ubq" => "q", "ubu" => "u", "ubc" => "c", "ubd" => "d", _ => continue };
+        if kind == "q" {
+            if let Some((p, l, pos)) = last_ptr.take() { queued.push(((e.a % 1_000_000_007) as u64, e.b, p, l, pos)); }
+        }
         writeln!(out, "{}", json!({"e": kind, "inst": (e.a % 1_000_000_007) as u64, "i": e.b, "f": e.c})).unwrap();
         n += 1;
     }
+    // memory a queued write points into that went back to the allocator before the flush call returned
+    let logged = crate::freelog::mark();
+    let mut freed_events = 0;
+    for (inst, i, p, l, pos) in &queued {
+        for j in *pos..logged {
+            let (fp, fl) = (crate::freelog::PTR[j].load(Ordering::SeqCst), crate::freelog::LEN[j].load(Ordering::SeqCst));
+            if fl > 0 && fp <= *p && *p < fp + fl && *l > 0 {
+                writeln!(out, "{}", json!({"e": "f", "inst": inst, "i": i, "f": 0})).unwrap();
+                n += 1;
+                freed_events += 1;
+                break;
+            }
+        }
+    }
     out.flush().unwrap();
     let enters = SEEN.load(Ordering::SeqCst);
-    println!("{}", json!({"events": n, "enter_calls": enters, "flush": match &res { Ok(()) => "Ok".to_string(), Err(e) => crate::util::err_name(e) }}));
+    println!("{}", json!({"events": n, "enter_calls": enters, "deallocations_logged": logged, "queued": queued.len(), "freed_while_queued": freed_events, "flush": match &res { Ok(()) => "Ok".to_string(), Err(e) => crate::util::err_name(e) }}));
     std::mem::forget(store);
     let _ = std::fs::remove_file(&path);
     0
